@@ -31,8 +31,9 @@ Proof.
   intros H. unfold frame. rewrite put_be_put_bes4 by exact H.
   split; [reflexivity|split].
   - rewrite app_length, put_bes_length. reflexivity.
-  - rewrite <- (put_bes_length 4 (Z.of_nat (length body))) at 1.
-    rewrite firstn_app_exact. apply get_put_bes; [lia|]. apply in_signed_4. unfold ZM31 in *. lia.
+  - replace (firstn 4 (put_bes 4 (Z.of_nat (length body)) ++ body)) with (put_bes 4 (Z.of_nat (length body))).
+    + apply get_put_bes; [lia|]. apply in_signed_4. unfold ZM31 in *. lia.
+    + symmetry. rewrite <- (put_bes_length 4 (Z.of_nat (length body))) at 1. apply firstn_app_exact.
 Qed.
 
 Theorem write_response_shape flex t corr v f :
